@@ -35,3 +35,25 @@ Definition random_pauli_from (pairs : list (pstr * pstr)) : list pstr :=
               [repeat I_site i ++ a ++ repeat I_site (n - i - 1);
                repeat I_site i ++ b ++ repeat I_site (n - i - 1)])
            (combine (seq 0 n) pairs).
+
+(* ---- exact uniformity on the finite groups N = 1, 2: enumerate every accepted raw draw ---- *)
+Fixpoint all_strs (n : nat) : list pstr :=
+  match n with
+  | O => [[]]
+  | S m => flat_map (fun s => map (cons s) (all_strs m)) [(false, false); (true, false); (false, true); (true, true)]
+  end.
+(* accepted raw draws of random_pair on n qubits: g1 non-zero (re-drawn otherwise), g2 arbitrary; fixed to an anticommuting pair *)
+Definition all_pairs (n : nat) : list (pstr * pstr) :=
+  flat_map (fun g1 => if is_id_str g1 then [] else map (fun g2 => fix_pair g1 g2) (all_strs n)) (all_strs n).
+Definition all_raw_cliffords (n : nat) : list (list pstr) :=
+  match n with
+  | 1%nat => map (fun p => random_clifford_from 1 [p]) (all_pairs 1)
+  | 2%nat => flat_map (fun p2 => map (fun p1 => random_clifford_from 2 [p2; p1]) (all_pairs 1)) (all_pairs 2)
+  | _ => []
+  end.
+Definition str_eqb (a b : pstr) : bool := forallb (fun ab => eqb (fst (fst ab)) (fst (snd ab)) && eqb (snd (fst ab)) (snd (snd ab))) (combine a b) && Nat.eqb (length a) (length b).
+Definition mat_eqb (a b : list pstr) : bool := forallb (fun ab => str_eqb (fst ab) (snd ab)) (combine a b) && Nat.eqb (length a) (length b).
+Definition count_mat (m : list pstr) (l : list (list pstr)) : nat := length (filter (mat_eqb m) l).
+Definition symplectic_b (m : list pstr) : bool :=
+  let n2 := length m in
+  forallb (fun i => forallb (fun j => acq (nth i m []) (nth j m []) =? expected_acq i j) (seq 0 n2)) (seq 0 n2).
